@@ -1335,6 +1335,51 @@ fn stream_directed(rep: &mut Report, m: &mut Model, sc: &mut Scratch) {
         }
         rep.case("directed", Some(&format!("emb{len}|{attempt}")));
     }
+    // --- blob log: a chunk marked garbage (known finding: the marks are not part of the snapshot)
+    {
+        let rt = SlabRouter::new();
+        let h = rt.blobs.append(b"abc");
+        rt.blobs.mark_garbage(&h);
+        let p = sc.fresh("blob.snap");
+        match save_load(&rt, Fmt::Bytes, &p) {
+            Err(e) => seen.violation(rep, "tensor_store.snapshot.bytes/save_or_load_failed", &e, json!({"directed": "blob log with one chunk marked garbage"})),
+            Ok((l, _)) => {
+                if l.blobs.get(&h) != rt.blobs.get(&h) {
+                    seen.violation(rep, "tensor_store.blob_log.snapshot/blob_log_not_restored", "get() of a chunk differs after load", json!({"directed": "append(b\"abc\"), mark_garbage(h), to_bytes/from_bytes"}));
+                }
+                if l.blobs.contains(&h) != rt.blobs.contains(&h) {
+                    seen.violation(rep, "tensor_store.blob_log.snapshot/garbage_marks_not_restored", "a chunk marked garbage is contains()=false before the save and true after the load", json!({"directed": "append(b\"abc\"), mark_garbage(h), to_bytes/from_bytes", "saved_contains": rt.blobs.contains(&h), "loaded_contains": l.blobs.contains(&h)}));
+                }
+            }
+        }
+        rep.case("directed", Some("blob log: garbage mark"));
+    }
+    // --- graph tensor: regression inputs of 3d29d770 (restore keeps edge ids) and ce34e58a (merge prunes incoming)
+    {
+        let types: Vec<String> = vec![];
+        let rt = SlabRouter::new();
+        let e0 = rt.graph.add_edge(EntityId::new(5), EntityId::new(1), "a", true);
+        let e1 = rt.graph.add_edge(EntityId::new(2), EntityId::new(3), "b", false);
+        let e2 = rt.graph.add_edge(EntityId::new(1), EntityId::new(2), "a", true);
+        let mut d = TensorData::new();
+        d.set("w", TensorValue::Scalar(ScalarValue::Int(50)));
+        rt.graph.set_edge_data(e0, d);
+        rt.graph.delete_edge(e2);
+        let nodes: Vec<u64> = (0..7).collect();
+        let ids = vec![e0.as_u64(), e1.as_u64(), e2.as_u64()];
+        let before = real_gdump(&rt, &nodes, &ids, &types);
+        let desc = json!({"directed": "add_edge(5->1)=e0 with data, add_edge(2->3)=e1, add_edge(1->2)=e2, delete_edge(e2), to_bytes/from_bytes"});
+        let p = sc.fresh("graph.snap");
+        match save_load(&rt, Fmt::Bytes, &p) {
+            Err(e) => seen.violation(rep, "tensor_store.snapshot.bytes/save_or_load_failed", &e, desc.clone()),
+            Ok((l, _)) => {
+                let after = real_gdump(&l, &nodes, &ids, &types);
+                let selfafter = real_gdump(&rt, &nodes, &ids, &types);
+                graph_oracle(rep, &mut seen, &before, &after, &selfafter, &desc);
+            }
+        }
+        rep.case("directed", Some("graph tensor: out-of-order sources, edge data, deleted edge"));
+    }
     // --- regression inputs of the fixed defects, through the real save/load and the model
     let path = sc.fresh("reg.q");
     let cfgd = qconfig(None, true);
@@ -2576,31 +2621,6 @@ fn stream_save_after_crash(rep: &mut Report, m: &mut Model, root: &Rng, thorough
 
 // ------------------------------------------------------------------ stream: op sequences on a router, then snapshot / restore of the state they reach
 
-/// Oracle classes whose verdict is kept as an observation (not a violation) until the coordinator
-/// has listed them as known findings or applied the proposed repair (proposed/C07-*.diff).
-const CANDIDATE_CLASSES: &[&str] = &[
-    "tensor_store.graph_tensor.restore/edge_ids_renumbered",
-    "tensor_store.graph_tensor.restore/edge_data_attached_to_other_edge",
-    "tensor_store.graph_tensor.merge/deleted_edges_reappear_in_incoming",
-    "tensor_store.blob_log.snapshot/garbage_marks_not_restored",
-];
-
-impl Seen {
-    /// a failure of the property found on the real outputs: a violation, or (candidate classes) an observation
-    fn finding(&mut self, rep: &mut Report, class: &str, what: &str, input: J) {
-        if CANDIDATE_CLASSES.contains(&class) {
-            let n = self.0.entry(class.to_string()).or_insert(0);
-            *n += 1;
-            rep.hit(&format!("candidate.{class}"));
-            if *n <= 1 {
-                rep.observe(json!({"candidate_finding": class, "what": what, "input": input}));
-            }
-        } else {
-            self.violation(rep, class, what, input);
-        }
-    }
-}
-
 fn enc_data_m(d: &TensorData) -> String {
     let s = enc_data(d);
     if s.is_empty() {
@@ -2749,23 +2769,6 @@ fn canon_gdump(s: &str) -> String {
 fn real_bdump(rt: &SlabRouter, hashes: &[tensor_store::ChunkHash]) -> String {
     let items: Vec<String> = hashes.iter().map(|h| format!("{}:{}:{}", h.as_u64(), rt.blobs.get(h).map_or("none".to_string(), |d| hex(&d)), u8::from(rt.blobs.contains(h)))).collect();
     format!("{}#chunks={} bytes={} segments={}", join_or(",", &items), rt.blobs.chunk_count(), rt.blobs.total_bytes(), rt.blobs.segment_count())
-}
-
-/// which of the two graph-tensor repairs the real code has (the model mirrors the code as it is)
-fn probe_graph_fixes() -> (bool, bool) {
-    let rt = SlabRouter::new();
-    rt.graph.add_edge(EntityId::new(5), EntityId::new(1), "a", true);
-    let e1 = rt.graph.add_edge(EntityId::new(2), EntityId::new(3), "b", false);
-    let keep = match rt.to_bytes().ok().and_then(|b| SlabRouter::from_bytes(&b).ok()) {
-        Some(l) => l.graph.outgoing(EntityId::new(2)) == vec![(EntityId::new(3), e1)],
-        None => false,
-    };
-    let rt = SlabRouter::new();
-    let e0 = rt.graph.add_edge(EntityId::new(1), EntityId::new(2), "a", true);
-    rt.graph.delete_edge(e0);
-    rt.graph.merge();
-    let prune = rt.graph.incoming(EntityId::new(2)).is_empty();
-    (keep, prune)
 }
 
 struct RouterCase {
@@ -2921,7 +2924,7 @@ fn router_snapshot_check(rep: &mut Report, m: &mut Model, seen: &mut Seen, c: &m
                 } else {
                     "tensor_store.blob_log.snapshot/blob_log_not_restored"
                 };
-                seen.finding(rep, class, "the blob log of the loaded router answers differently (hash:data:contains, counters)", json!({"case": input(c), "saved": bbefore, "loaded": bafter}));
+                seen.violation(rep, class, "the blob log of the loaded router answers differently (hash:data:contains, counters)", json!({"case": input(c), "saved": bbefore, "loaded": bafter}));
             }
             // header of the two file forms
             if fmt != Fmt::Bytes && bytes.len() >= 20 {
@@ -2974,7 +2977,7 @@ fn graph_oracle(rep: &mut Report, seen: &mut Seen, before: &str, after: &str, se
     let (ob, oa) = (sec(before, "out="), sec(after, "out="));
     if ob != oa {
         if targets(&ob) == targets(&oa) {
-            seen.finding(rep, "tensor_store.graph_tensor.restore/edge_ids_renumbered", "outgoing() of the loaded graph tensor lists the same targets under other edge ids than the saved one (restore re-adds the edges and numbers them 0, 1, 2 … in snapshot order)", json!({"case": input, "saved_outgoing": ob, "loaded_outgoing": oa}));
+            seen.violation(rep, "tensor_store.graph_tensor.restore/edge_ids_renumbered", "outgoing() of the loaded graph tensor lists the same targets under other edge ids than the saved one (restore re-adds the edges and numbers them 0, 1, 2 … in snapshot order)", json!({"case": input, "saved_outgoing": ob, "loaded_outgoing": oa}));
         } else {
             seen.violation(rep, "tensor_store.graph_tensor.restore/outgoing_not_restored", "outgoing() of the loaded graph tensor lists other targets than the saved one", json!({"case": input, "saved_outgoing": ob, "loaded_outgoing": oa}));
         }
@@ -2994,7 +2997,7 @@ fn graph_oracle(rep: &mut Report, seen: &mut Seen, before: &str, after: &str, se
     let ib_raw = sec(before, "in=");
     let (ib, ia) = (drop_stale(&ib_raw), sec(after, "in="));
     if ib != ib_raw {
-        seen.finding(rep, "tensor_store.graph_tensor.merge/deleted_edges_reappear_in_incoming", "incoming() of the graph tensor being saved lists edges that were deleted (an earlier merge, automatic or by a save, emptied the deleted set without pruning the incoming index)", json!({"case": input, "incoming": ib_raw, "live_edges": ob}));
+        seen.violation(rep, "tensor_store.graph_tensor.merge/deleted_edges_reappear_in_incoming", "incoming() of the graph tensor being saved lists edges that were deleted (an earlier merge, automatic or by a save, emptied the deleted set without pruning the incoming index)", json!({"case": input, "incoming": ib_raw, "live_edges": ob}));
     }
     if ib != ia {
         let srcs = |s: &str| -> String {
@@ -3004,7 +3007,7 @@ fn graph_oracle(rep: &mut Report, seen: &mut Seen, before: &str, after: &str, se
             }).collect::<Vec<_>>().join("|")
         };
         if srcs(&ib) == srcs(&ia) {
-            seen.finding(rep, "tensor_store.graph_tensor.restore/edge_ids_renumbered", "incoming() of the loaded graph tensor lists the same sources under other edge ids", json!({"case": input, "saved_incoming": ib, "loaded_incoming": ia}));
+            seen.violation(rep, "tensor_store.graph_tensor.restore/edge_ids_renumbered", "incoming() of the loaded graph tensor lists the same sources under other edge ids", json!({"case": input, "saved_incoming": ib, "loaded_incoming": ia}));
         } else {
             seen.violation(rep, "tensor_store.graph_tensor.restore/incoming_not_restored", "incoming() of the loaded graph tensor lists other sources than the saved one", json!({"case": input, "saved_incoming": ib, "loaded_incoming": ia}));
         }
@@ -3013,7 +3016,7 @@ fn graph_oracle(rep: &mut Report, seen: &mut Seen, before: &str, after: &str, se
     if db != da {
         seen.violation(rep, "tensor_store.graph_tensor.restore/edge_data_not_restored", "get_edge_data differs for an edge id", json!({"case": input, "saved": db, "loaded": da}));
     } else if ob != oa && db != "-" && db.split('&').any(|e| !e.ends_with("~notfound")) {
-        seen.finding(rep, "tensor_store.graph_tensor.restore/edge_data_attached_to_other_edge", "edge data is keyed by edge id and came back unchanged while the edges were renumbered: the data now belongs to another edge (or to none)", json!({"case": input, "saved_outgoing": ob, "loaded_outgoing": oa, "edge_data": db}));
+        seen.violation(rep, "tensor_store.graph_tensor.restore/edge_data_attached_to_other_edge", "edge data is keyed by edge id and came back unchanged while the edges were renumbered: the data now belongs to another edge (or to none)", json!({"case": input, "saved_outgoing": ob, "loaded_outgoing": oa, "edge_data": db}));
     }
     let cnt = |s: &str| s.split('#').last().unwrap_or("").split(' ').find_map(|p| p.strip_prefix("edges=").map(str::to_string)).unwrap_or_default();
     if cnt(before) != cnt(after) {
@@ -3024,7 +3027,7 @@ fn graph_oracle(rep: &mut Report, seen: &mut Seen, before: &str, after: &str, se
     if strip_pending(before) != strip_pending(selfafter) {
         let only_incoming = sec(before, "out=") == sec(selfafter, "out=") && sec(before, "data=") == sec(selfafter, "data=") && cnt(before) == cnt(selfafter);
         if only_incoming {
-            seen.finding(rep, "tensor_store.graph_tensor.merge/deleted_edges_reappear_in_incoming", "after the save, incoming() of the SAVED graph tensor lists deleted edges again (snapshot() merges; merge() empties the deleted set without pruning the incoming index)", json!({"case": input, "incoming_before_save": sec(before, "in="), "incoming_after_save": sec(selfafter, "in=")}));
+            seen.violation(rep, "tensor_store.graph_tensor.merge/deleted_edges_reappear_in_incoming", "after the save, incoming() of the SAVED graph tensor lists deleted edges again (snapshot() merges; merge() empties the deleted set without pruning the incoming index)", json!({"case": input, "incoming_before_save": sec(before, "in="), "incoming_after_save": sec(selfafter, "in=")}));
         } else {
             seen.violation(rep, "tensor_store.graph_tensor.snapshot/save_changes_the_saved_graph", "saving changed what the saved graph tensor answers", json!({"case": input, "before": before, "after": selfafter}));
         }
@@ -3034,9 +3037,6 @@ fn graph_oracle(rep: &mut Report, seen: &mut Seen, before: &str, after: &str, se
 fn stream_router(rep: &mut Report, m: &mut Model, root: &Rng, thorough: bool, sc: &mut Scratch) {
     let mut r = root.fork("router");
     let mut seen = Seen(BTreeMap::new());
-    let (keep, prune) = probe_graph_fixes();
-    rep.hit(&format!("router.real_code.graph_restore_keeps_edge_ids.{keep}"));
-    rep.hit(&format!("router.real_code.graph_merge_prunes_incoming.{prune}"));
     for b in [
         "router.put.emb.right_dimension", "router.put.emb.wrong_dimension", "router.put.emb.no_embedding_field", "router.put.emb.embedding_not_a_vector",
         "router.put.emb.readd_after_delete", "router.put.emb.overwrite", "router.put.cache.evicts", "router.put.cache.update_in_place", "router.delete.emb", "router.delete.cache",
@@ -3057,7 +3057,7 @@ fn stream_router(rep: &mut Report, m: &mut Model, root: &Rng, thorough: bool, sc
         let seg = *r.pick(&[16usize, 64, 1 << 20]);
         let cfg = SlabRouterConfig { embedding_dim: dim, cache_capacity: cap, graph_merge_threshold: threshold, blob_segment_size: seg, ..SlabRouterConfig::default() };
         let mut c = RouterCase { rt: SlabRouter::with_config(&cfg), dim, cap, nodes: (0..7).collect(), edge_ids: vec![], hashes: vec![], live: true, trace: vec![] };
-        let first = format!("rt_new {dim} {cap} {threshold} {seg} {} {}", u8::from(keep), u8::from(prune));
+        let first = format!("rt_new {dim} {cap} {threshold} {seg}");
         let ans = m.ask(&first);
         c.ask_noop(rep, "router.ops", &first, "ok", &ans);
         let n_ops = if case_no < 6 { 0 } else { 10 + r.below(if thorough { 120 } else { 50 }) };
